@@ -546,6 +546,21 @@ func main() {
 		emit("(* receiver: read deadline = keepAlive + keepAlive / keepalive_grace_divisor *)")
 		emit("Definition keepalive_grace_divisor : N := %d.", div)
 	}
+	// timeoutReader.Read: the deadline is re-armed, unconditionally and from the current time, by the first
+	// statement of every Read; the only other statement reads from the connection
+	{
+		fd := svc.fn("sendrecv.go", "timeoutReader", "Read")
+		ok := len(fd.Body.List) == 2
+		if ok {
+			is, isIf := fd.Body.List[0].(*ast.IfStmt)
+			ok = isIf && is.Init != nil && is.Else == nil &&
+				src(is.Init) == "err := r.conn.SetReadDeadline(time.Now().Add(r.d))" && src(is.Cond) == "err != nil"
+			rs, isRet := fd.Body.List[1].(*ast.ReturnStmt)
+			ok = ok && isRet && len(rs.Results) == 1 && src(rs.Results[0]) == "r.conn.Read(b)"
+		}
+		emit("(* timeoutReader.Read re-arms the read deadline (time.Now() + d) at every read and then reads *)")
+		emit("Definition reader_rearms_every_read : bool := %v.", ok)
+	}
 	// processAcked switch on ackmsg.State
 	{
 		fd := svc.fn("process.go", "service", "processAcked")
